@@ -52,7 +52,9 @@ pub const BROKEN_PATTERNS: [&str; 30] = [
 /// dependency strings, numbers, booleans, list/command syntax of the other file
 /// formats, URL-ish and shell-ish text).  A store that must keep values verbatim
 /// is tried with each of them.
-pub const TYPED_VALUES: [&str; 96] = [
+pub const TYPED_VALUES: [&str; 102] = [
+    // one item named twice (a store that "tidies" lists would drop the repeat)
+    "a b a", "x x", "inet6 ssl inet6", "a,b,a", "-x -x", "a  a",
     // package paths
     "../../cat/pkg", "../../cat/pkg/", "../..//cat/pkg", "../../cat//pkg", "cat/pkg", "cat/pkg/", "./cat/pkg", "/cat/pkg",
     "../../cat/pkg/../x", "../cat/pkg", "../../../cat/pkg", "cat", "..", "../..", "../../cat/pkg ", "../../Cat/Pkg",
